@@ -29,13 +29,16 @@ func (e *Engine) intrinsic(fr *Frame, st *State, name string, fn *ssa.Function, 
 		qs := st.clone()
 		qs.pc = tTrue // the quantified formula is used under the caller's path condition
 		e.boundVars = append(e.boundVars, bv)
-		e.pushLets()
+		e.letFrames = append(e.letFrames, nil)
+		noLet := len(e.letFrames) - 1
+		e.letOff[noLet] = true // no let sharing inside quantifier bodies (index-shifted variants rewrite them textually)
 		body := e.callStatic(fr, qs, fv.fn, fv.binds, []Val{bv}, pos)
 		e.boundVars = e.boundVars[:len(e.boundVars)-1]
 		e.noOblig--
 		e.inlineTerms--
 		bt := body.(T)
-		bt.S = e.popLets(bt.S)
+		delete(e.letOff, noLet)
+		e.letFrames = e.letFrames[:noLet]
 		guard := e.typeInv(bv, pt, 0)
 		q := "forall"
 		if name == "GvcExists" {
@@ -940,9 +943,12 @@ func (e *Engine) quantInt(st *State, q string, body func(s *State, i T) T) T {
 	qs := st.clone()
 	qs.pc = tTrue
 	e.boundVars = append(e.boundVars, bv)
-	e.pushLets()
+	e.letFrames = append(e.letFrames, nil)
+	noLet := len(e.letFrames) - 1
+	e.letOff[noLet] = true
 	b := body(qs, bv)
-	b.S = e.popLets(b.S)
+	delete(e.letOff, noLet)
+	e.letFrames = e.letFrames[:noLet]
 	e.boundVars = e.boundVars[:len(e.boundVars)-1]
 	e.noOblig--
 	e.inlineTerms--
